@@ -220,6 +220,7 @@ func drawSyntax(t *rapid.T) (s fileSyntax) {
 	s.Comments = rapid.Bool().Draw(t, "comments")
 	s.DocStart = rapid.IntRange(0, 3).Draw(t, "doc_start") == 1
 	s.Indent = rapid.SampledFrom([]int{0, 0, 1, 4, 8}).Draw(t, "indent")
+	s.Kind = rapid.SampledFrom([]string{"", "", "", "symlink", "symlink-chain", "fifo"}).Draw(t, "file_kind")
 	if rapid.Bool().Draw(t, "key_order") {
 		s.Order = rapid.Permutation([]int{0, 1, 2, 3, 4, 5, 6, 7, 8, 9, 10, 11, 12, 13, 14, 15, 16, 17, 18, 19, 20, 21, 22, 23}).Draw(t, "key_order_perm")
 	}
